@@ -248,6 +248,13 @@ func callWrites(e *Engine, c *ssa.CallCommon, ws writeSetT) {
 		return
 	}
 	mname := calleeModelName(callee)
+	if mname == "maps.DeleteFunc" && len(c.Args) > 0 {
+		if mt, ok := unalias(c.Args[0].Type()).Underlying().(*types.Map); ok {
+			h, _ := mapHeapNames(mt)
+			ws.add(h, wFull)
+		}
+		return
+	}
 	if strings.HasSuffix(mname, "serde.Read") {
 		for _, a := range c.Args {
 			if mi, isMI := a.(*ssa.MakeInterface); isMI {
